@@ -332,6 +332,9 @@ class Parser(object):
         self.tags = []
 
     def _build_rule_statement(self, keyword, line):
+        if not self.feature:
+            msg = u"Rule may not occur before Feature"
+            raise ParserError(msg, self.line, self.filename, line)
         name = line[len(keyword) + 1:].strip()
         rule = model.Rule(self.filename, self.line, keyword, name,
                           tags=self.tags)
@@ -351,6 +354,9 @@ class Parser(object):
                 # -- HINT: Rule may have default background w/o steps.
                 msg = u"Second Background (can have only one)"
                 raise ParserError(msg, self.line, self.filename, line)
+        if not self.scenario_container:
+            msg = u"Background may not occur before Feature or Rule"
+            raise ParserError(msg, self.line, self.filename, line)
         name = line[len(keyword) + 1:].strip()
         background = model.Background(self.filename, self.line, keyword, name)
         self.scenario_container.add_background(background)
@@ -374,7 +380,8 @@ class Parser(object):
         template = model.ScenarioOutline(self.filename, self.line, keyword, name,
                                          tags=self.tags)
         self.statement = template
-        self.scenario_container.add_scenario(template)
+        if self.scenario_container:
+            self.scenario_container.add_scenario(template)
 
         # -- RESET STATE:
         self.tags = []
@@ -471,6 +478,9 @@ class Parser(object):
             line = line.strip()[1:].strip()
             if line.lstrip().lower().startswith("language:"):
                 language = line[9:].strip()
+                if language not in i18n.languages:
+                    msg = u"Unknown language: %s" % language
+                    raise ParserError(msg, self.line, self.filename, line)
                 self.language = language
                 self.keywords = i18n.languages[language]
             return
@@ -617,6 +627,9 @@ class Parser(object):
             self.state = State.BACKGROUND
             return True
 
+        if self.rule is None:
+            # -- CASE: parse_rule() without Rule line (no description owner).
+            return False
         self.rule.description.append(line)
         return True
 
@@ -634,6 +647,11 @@ class Parser(object):
         """
         self.last_step_type = None
         line = line.strip()
+        if self.statement is None:
+            # -- CASE: parse_scenario() without Scenario/ScenarioOutline line.
+            # Only a taggable statement (or tags) can be accepted here.
+            return self.subaction_detect_taggable_statement(line)
+
         step = self.parse_step(line)
         if step:
             # -- FIRST STEP DETECTED: End collection of description-part.
@@ -770,7 +788,7 @@ class Parser(object):
         if not re.match(r"^(|.+)\|$", line):
             logger = logging.getLogger("behave")
             logger.warning(u"Malformed table row at %s: line %i",
-                           self.feature.filename, self.line)
+                           self.filename or "<string>", self.line)
 
         # -- SUPPORT: Escaped-pipe(s) in Gherkin cell values.
         #    Search for pipe(s) that are not preceded with an escape char.
@@ -838,7 +856,6 @@ class Parser(object):
         :param line:   Line with one/more tags to process.
         :raise ParserError: If syntax error is detected.
         """
-        assert line.startswith("@")
         tags = []
         for word in line.split():
             if word.startswith("@"):
